@@ -242,13 +242,22 @@ def obligations(tier):
         if len(inv) < len(mqs):
             inv = inv + (False,) * (len(mqs) - len(inv))
         conf = {}
-        use_conf = cx.choose('confusion', 2)
+        use_conf = cx.choose('confusion', 3)  # 0: none, 1: one-index matrix on (0,), 2: JOINT matrix on (1, 0) (two measured qubits)
         c0 = cx.real('c0', 0.0, 1.0)
         c1 = cx.real('c1', 0.0, 1.0)
-        if use_conf:
+        J = None
+        if use_conf == 1:
             cm = np.empty((2, 2), dtype=object)
             cm[0, 0], cm[0, 1], cm[1, 0], cm[1, 1] = 1 - c0, c0, c1, 1 - c1
             conf = {(0,): cm}
+        elif use_conf == 2:
+            if len(mqs) < 2:
+                cx.assume(False)
+            J = np.empty((4, 4), dtype=object if cx.mode != 'concrete' else float)
+            for r_ in range(4):
+                for c_ in range(4):
+                    J[r_, c_] = cx.real(f'j{r_}{c_}', 0.0, 1.0)
+            conf = {(1, 0): J}
         if which == 0:
             st = cirq.StateVectorSimulationState(initial_state=psi.copy(), qubits=q, prng=prng, dtype=np.complex128)
         else:
@@ -278,7 +287,14 @@ def obligations(tier):
         cx.close(np.array(pvec, dtype=object), np.array(exp_p, dtype=object), label='act_on(measure): requested probabilities == Born marginals')
         raw = list(outcomes[k])
         conf_bits = list(raw)
-        if use_conf:
+        if use_conf == 2:
+            # documented: the matrix acts on the measured qubits with indices (1, 0), row / column = big-endian
+            # integer of (bit of index 1, bit of index 0)
+            pv2, k2 = prng.log[1]
+            row = 2 * raw[1] + raw[0]
+            cx.close(np.array(pv2, dtype=object), np.array(list(J[row]), dtype=object), label='act_on(measure): joint confusion draw uses the row of the actual outcome (big-endian over the listed indices)')
+            conf_bits[1], conf_bits[0] = (k2 >> 1) & 1, k2 & 1
+        elif use_conf:
             # confusion acts on the bit of qubit index 0 of the measured list (key (0,)): second draw
             pv2, k2 = prng.log[1]
             row = [1 - c0, c0] if raw[0] == 0 else [c1, 1 - c1]
@@ -350,6 +366,44 @@ def obligations(tier):
         cx.close(np.asarray(out, dtype=object).reshape(-1) * nrm, np.asarray(proj, dtype=object).reshape(-1), label=f'PauliMeasurementGate[{name}]: post state * sqrt(p) == (1 +- P)/2 psi')
 
     obs.append(Obligation('pauli_measurement', pauli_meas_body, twin=lambda cx: pauli_meas_body(cx, wrong=True), expected=(ZeroDivisionError,), opts={'weight': 8, 'decide_timeout_ms': 300}, desc='cirq.act_on(PauliMeasurementGate(observable)) for 9 signed Pauli observables on 1-2 qubits (all placements) on an ARBITRARY symbolic 2-qubit state: probability of the drawn outcome == Born weight of the recorded eigenvalue, post-measurement state == projection onto that eigenspace (so a repeated measurement repeats the outcome)'))
+
+    def pauli_sim_body(cx, wrong=False):
+        from symx.snum import sqrt
+
+        q = cirq.LineQubit.range(2)
+        name, letters = PSTR[cx.choose('observable', len(PSTR))]
+        sign = -1 if name.startswith('-') else 1
+        places = list(itertools.permutations(range(2), len(letters)))
+        pl = places[cx.choose('place', len(places))]
+        PG = {1: cirq.X, 2: cirq.Y, 3: cirq.Z}
+        PM = {1: D.PAULI['X'], 2: D.PAULI['Y'], 3: D.PAULI['Z']}
+        gate = cirq.PauliMeasurementGate(cirq.DensePauliString([PG[l] for l in letters], coefficient=sign), key='m')
+        t = cx.real('t', -4.0, 4.0)
+        u = cx.real('u', -4.0, 4.0)
+        split = bool(cx.choose('split', 2))
+        prng = make_prng(cx)
+        # product state prepared by one-qubit rotations: with split_untangled_states the two qubits are separate factors
+        circuit = cirq.Circuit(cirq.X(q[0]) ** t, cirq.Y(q[1]) ** u, gate.on(*[q[i] for i in pl]))
+        res = cirq.Simulator(seed=prng, dtype=np.complex128, split_untangled_states=split).simulate(circuit, qubit_order=q)
+        rec = [int(b) for b in res.measurements['m']]
+        psi = np.zeros((2, 2), dtype=object)
+        psi[:] = 0
+        psi[0, 0] = 1
+        psi = EM.apply_matrix_to_axes(D.X(t), psi, [0])
+        psi = EM.apply_matrix_to_axes(D.Y(u), psi, [1])
+        Pm = np.eye(1, dtype=complex)
+        for l in letters:
+            Pm = np.kron(Pm, PM[l])
+        Pm = sign * Pm
+        proj = (psi + (1 if rec[0] == 0 else -1) * EM.apply_matrix_to_axes(Pm, psi, list(pl))) * 0.5
+        w = total_weight(proj)
+        cx.check(len(prng.log) == 1 and len(rec) == 1, label='Simulator(PauliMeasurementGate): one draw, one recorded bit')
+        pvec, kdraw = prng.log[0]
+        cx.close(pvec[kdraw], w * (0.5 if wrong else 1.0), label=f'Simulator(PauliMeasurementGate[{name}]): probability of the drawn outcome')
+        nrm = sqrt(w) if cx.mode != 'concrete' else np.sqrt(w)
+        cx.close(np.asarray(res.final_state_vector, dtype=object).reshape(-1) * nrm, np.asarray(proj, dtype=object).reshape(-1), label=f'Simulator(PauliMeasurementGate[{name}], split={split}): final state * sqrt(p) == (1 +- P)/2 psi (the measured qubits stay entangled)')
+
+    obs.append(Obligation('pauli_measurement.simulator', pauli_sim_body, twin=lambda cx: pauli_sim_body(cx, wrong=True), expected=(ZeroDivisionError,), opts={'weight': 10, 'decide_timeout_ms': 300}, desc='cirq.Simulator(split_untangled_states on/off).simulate(X**t, Y**u, PauliMeasurementGate(observable)) with symbolic rotations: probability of the drawn outcome and the FINAL state vector equal the projection of the documented product state (the product-state container must not factor the measured qubits apart)'))
 
     obs.append(Obligation('pauli_measurement.dm', lambda cx: pauli_meas_body(cx, dm=True), twin=lambda cx: pauli_meas_body(cx, wrong=True, dm=True), expected=(ZeroDivisionError,), opts={'weight': 10, 'decide_timeout_ms': 300}, desc='the same law on a DensityMatrixSimulationState holding psi psi^dag: probability of the drawn outcome and post-measurement density matrix == Pi rho Pi / p (this path went through cirq.apply_channel, which used to apply the basis-change prefix of the decomposition before giving up)'))
 
